@@ -92,11 +92,16 @@ func (w *World) setOverride(r *rand.Rand, node, ns, eds string) {
 	if r.Intn(12) == 0 {
 		val = `{"requests": nope`
 	}
-	w.MutateNode(node, "override annotation "+val, func(n *corev1.Node) {
+	key := ovAnnKey(ns, eds)
+	if r.Intn(6) == 0 {
+		// written for a container the template does not have (init container, renamed, typo): no effect on the pod
+		key = fmt.Sprintf(v1.ExtendedDaemonSetRessourceNodeAnnotationKey, ns, eds, "init-volume")
+	}
+	w.MutateNode(node, "override annotation "+key+"="+val, func(n *corev1.Node) {
 		if n.Annotations == nil {
 			n.Annotations = map[string]string{}
 		}
-		n.Annotations[ovAnnKey(ns, eds)] = val
+		n.Annotations[key] = val
 	})
 }
 
@@ -144,6 +149,7 @@ func (w *World) overridesAction(r *rand.Rand, ns, eds string) {
 type podInputs struct {
 	Hash      string
 	Ann       string
+	Other     string // override annotations of this ExtendedDaemonSet for other container names
 	Setting   string
 	Ambiguous bool
 }
@@ -158,6 +164,17 @@ func (v *ERSView) acceptableResources(node *corev1.Node) ([]corev1.ResourceRequi
 			tpl = c.Resources
 		}
 	}
+	// every override annotation of this ExtendedDaemonSet on the node is an input of the comparison
+	// (also one written for a container the template does not have)
+	prefix := fmt.Sprintf(v1.ExtendedDaemonSetRessourceNodeAnnotationKey, v.EDS.Namespace, v.EDS.Name, "")
+	var all []string
+	for k, a := range node.Annotations {
+		if strings.HasPrefix(k, prefix) && k != ovAnnKey(v.EDS.Namespace, v.EDS.Name) {
+			all = append(all, k+"="+a)
+		}
+	}
+	sort.Strings(all)
+	in.Other = strings.Join(all, ";")
 	if a, ok := node.Annotations[ovAnnKey(v.EDS.Namespace, v.EDS.Name)]; ok {
 		in.Ann = a
 		var rr corev1.ResourceRequirements
